@@ -54,6 +54,8 @@ def parseTok (t : String) : Option Step :=
   | ["sb", m] => (ofHex m).map (Step.send false)
   | ["ea"] => some (.endc true)
   | ["eb"] => some (.endc false)
+  | ["xa", b, d] => do let b ← ofHex b; let d ← ofHex d; pure (.inject true b d)
+  | ["xb", b, d] => do let b ← ofHex b; let d ← ofHex d; pure (.inject false b d)
   | ["ma", q, s] => do let q ← ofHex q; let s ← ofHex s; pure (.auth true q s)
   | ["mb", q, s] => do let q ← ofHex q; let s ← ofHex s; pure (.auth false q s)
   | _ => none
